@@ -141,6 +141,11 @@ def verify_function(w: World, specs: SpecSet, fq: str, timeout_ms: int = 10000, 
     # discharge
     ax = w.global_axioms()
     obs = list(eng.obligations.values())
+    if c.only_kinds:
+        # a variant contract re-uses the function's code but is only about its own clauses: safety / raises / frame
+        # obligations of the same program points are discharged under the function's plain contract (whose
+        # precondition is weaker), and are assumed here
+        obs = [ob for ob in obs if ob.kind in c.only_kinds]
     res = discharge_all(obs, ax, timeout_ms, seed, jobs, single_attempt=set(single_attempt))
     for ob in obs:
         r = res[ob.oid]
